@@ -1366,14 +1366,26 @@ func init() {
 		Kind:        "cases",
 		Rule: "one program per (access path x target kind x source x boundary value x {read, =, +=}): paths S.F, S.In.F, S.Nv.F, value-injected SV.F, pointer scalar P, map[string]/map[int]/map[int64] elements with literal / missing / local-variable / injected-variable keys, slice and array elements with literal / variable indexes, every container injected by pointer and by value; 14 target kinds; sources integer/real/string/bool literal, locals, injected values of all 12 numeric kinds; values = edges of target and source kind (0, 1, -1, min, max, min-1, max+1, 2^24(+1), 2^53(+1), max float) as far as the source can hold them; " +
 			"plus calls of functions / methods (pointer and value receivers) / three-level methods with 1..3 parameters over {int,int8,uint16,uint64,float32,float64,string,bool} x argument sources {literal, local, injected value of every numeric kind, nested call, arithmetic expression} x 0/1/2 results; plus name-shadowing programs. " +
-			"Judged (extra.cases): within-class stores everywhere, cross-class stores into struct fields and pointer scalars, representable values only, reads incl. missing keys, calls whose arguments are representable in the parameter types; host objects are compared location by location before/after. extra.unjudged: programs outside the statement (only panic-escape and collateral changes are recorded). Companion under concurrency: the same call sites evaluated by two overlapping pool requests (the compiled rule tree is shared by all instances), every schedule with <=2 (3) deviations: every injected function must receive its own request's arguments",
+			"Judged (extra.cases): within-class stores everywhere, cross-class stores into struct fields and pointer scalars, representable values only, reads incl. missing keys, calls whose arguments are representable in the parameter types; host objects are compared location by location before/after. extra.unjudged: programs outside the statement (only panic-escape and collateral changes are recorded). Plus two-level reads and writes across a re-pointed pointer field (by a method of the injected object inside the rule, and by the host between two calls on one data context). Companion under concurrency: the same call sites evaluated by two overlapping pool requests (the compiled rule tree is shared by all instances), every schedule with <=2 (3) deviations: every injected function must receive its own request's arguments",
 		Assume: []string{"64-bit int/uint on the host", "injected functions terminate"},
 		Run: func(c *hx.Ctx) {
 			c03Run(c)
+			c03Repoint(c)
 			c03Concurrent(c)
 		},
-		ReplayCase: c03Replay,
-		Rebuild:    rebuildPool,
+		ReplayCase: func(v *hx.Violation) []hx.Finding {
+			if v.Scenario == "repoint" {
+				tmp := &hx.Ctx{Prop: "C03", Tier: "quick", NShards: 1, Res: &hx.Result{}}
+				c03Repoint(tmp)
+				var fs []hx.Finding
+				for _, x := range tmp.Res.Violations {
+					fs = append(fs, hx.Finding{Sig: x.Sig, Msg: x.Msg})
+				}
+				return fs
+			}
+			return c03Replay(v)
+		},
+		Rebuild: rebuildPool,
 	})
 }
 
@@ -1394,5 +1406,79 @@ func c03Concurrent(c *hx.Ctx) {
 			exploreShared(c, "C03", i, func() *hx.Scenario { return poolScenario(cfg) }, ec)
 			i++
 		}
+	}
+}
+
+// ---- reads of a two-level path must follow a pointer field that is re-pointed ----
+//
+// "Reading a field ... of injected data yields its CURRENT Go value": S.In is a pointer field; a
+// method of the injected object (or the host between two calls on the same data context) re-points
+// it; every later read / write of S.In.F in the rule must reach the struct it points to now.
+
+type rpInner struct{ F int64 }
+type rpOuter struct {
+	In  *rpInner
+	Alt *rpInner
+}
+
+func (o *rpOuter) Swap() { o.In, o.Alt = o.Alt, o.In }
+
+func c03Repoint(c *hx.Ctx) {
+	if c.Shard != 0 {
+		return
+	}
+	type prog struct {
+		Body    string
+		Want    int64 // returned value
+		InF     int64 // S.In.F afterwards (S.In as it is afterwards)
+		AltF    int64
+		Swapped bool
+	}
+	progs := []prog{
+		{"x = S.In.F\n  S.Swap()\n  return S.In.F", 2, 2, 1, true},
+		{"S.Swap()\n  return S.In.F", 2, 2, 1, true},
+		{"x = S.In.F\n  y = S.In.F\n  S.Swap()\n  x = S.In.F\n  S.Swap()\n  return S.In.F", 1, 1, 2, false},
+		{"x = S.In.F\n  S.Swap()\n  S.In.F = 9\n  return S.Alt.F", 1, 9, 1, true},
+		{"x = S.In.F\n  S.Swap()\n  S.In.F += 10\n  return S.In.F", 12, 12, 1, true},
+		{"x = S.In.F\n  S.Swap()\n  if S.In.F == 2 {\n    return 100\n  }\n  return 200", 100, 2, 1, true},
+		{"for i = 0; i < 3; i += 1 {\n    x = S.In.F\n    S.Swap()\n  }\n  return S.In.F", 2, 2, 1, true},
+	}
+	var sb strings.Builder
+	for i, p := range progs {
+		sb.WriteString(gx.RuleText(fmt.Sprintf("rp%d", i), "  "+p.Body))
+	}
+	src := gx.MustCompile(sb.String())
+	report := func(i int, p prog, msg string) {
+		c.Res.Report("C03", "repoint", map[string]interface{}{"program": p.Body}, nil,
+			[]hx.Finding{{Sig: "c03:read:two-level-path-after-repointing", Msg: msg + "\n  rule body:\n  " + p.Body + "\n  host: S = &{In: &{F:1}, Alt: &{F:2}}; S.Swap() exchanges the two pointers"}})
+	}
+	for i, p := range progs {
+		S := &rpOuter{In: &rpInner{1}, Alt: &rpInner{2}}
+		v, has, err, pan := gx.RunRule(src, fmt.Sprintf("rp%d", i), map[string]interface{}{"S": S})
+		c.Res.Execs++
+		c.Res.AddExtra("cases", 1)
+		switch {
+		case pan != nil || err != nil:
+			report(i, p, fmt.Sprintf("the rule failed: err=%v panic=%v", err, pan))
+		case !has || v != interface{}(p.Want):
+			report(i, p, fmt.Sprintf("the rule returned %v, the current value is %d", v, p.Want))
+		case S.In.F != p.InF || S.Alt.F != p.AltF:
+			report(i, p, fmt.Sprintf("host sees S.In.F=%d S.Alt.F=%d, expected %d / %d", S.In.F, S.Alt.F, p.InF, p.AltF))
+		}
+	}
+	// the host re-points between two calls that use the SAME data context
+	S := &rpOuter{In: &rpInner{1}, Alt: &rpInner{2}}
+	rb := gx.Fresh(src, nil, map[string]interface{}{"S": S})
+	rules := gx.MustCompile(gx.RuleText("rd", "  return S.In.F"))
+	rb.Kc = rules.Kc
+	g := engine.NewGengine()
+	for call, want := range []int64{1, 2, 1} {
+		err, pan := gx.CallGuarded(func() error { return g.Execute(rb, true) })
+		res, _ := g.GetRulesResultMap()
+		c.Res.Execs++
+		if pan != nil || err != nil || res["rd"] != interface{}(want) {
+			report(-1, prog{Body: "return S.In.F   (call " + fmt.Sprint(call+1) + " on the same data context; the host called S.Swap() between the calls)"}, fmt.Sprintf("call %d returned %v (err %v, panic %v), the current value is %d", call+1, res["rd"], err, pan, want))
+		}
+		S.Swap()
 	}
 }
